@@ -37,6 +37,9 @@ YPAT = [[1.3, 0.4, 2.1, 0.9, 1.6], [0.7, 2.4, 1.1, 3.2, 0.5]]
 YCOST = [1.5, 3.0, 1.1, 2.4, 1.9]
 YCON_FEAS = [-0.5, -0.9, 0.7, -0.3, 0.4]       # every subset of size >= 2 of the first four has a feasible point
 YCON_INFEAS = [0.5, 0.9, 0.7, 0.3, 0.4]
+# all observed points (barely) infeasible: a pending point is feasible in some fantasy samples and infeasible in others
+YCON_MIXED = [0.05, 0.02, 0.06, 0.03, 0.04]
+CONSTRAINT_MIX_NAME = "constraint_mixed"
 INPUT_LEVELS = (0.2, 0.5, 0.8)
 QUANTILES = (0.25, 0.5, 0.75)
 UNBOUNDED_LEVELS = (-0.8, 0.3, 1.4)
@@ -231,6 +234,7 @@ class AcqProblem:
         self.cost = _predictor(cfg, hp, K, YCOST, base + 2, False)
         self.con = _predictor(cfg, hp, C, YCON_FEAS, base + 3, False)
         self.coninf = _predictor(cfg, hp, CI, YCON_INFEAS, base + 4, False)
+        self.conmix = _predictor(cfg, hp, CONSTRAINT_MIX_NAME, YCON_MIXED, base + 6, False) if cfg["npend"] else None
         self.model_jitter = SPY.jittered
         self.heads = {
             "EI": EIAcquisitionFunction(self.active),
@@ -244,6 +248,8 @@ class AcqProblem:
         self.secondary = {"EIpu-e1": self.cost, "EIpu-e0.5": self.cost, "CEI-feas": self.con,
                           "CEI-nofeas": self.coninf}
         if cfg["npend"]:
+            self.heads["CEI-mixed"] = CEIAcquisitionFunction({A: self.active, CONSTRAINT_MIX_NAME: self.conmix}, active_metric=A)
+            self.secondary["CEI-mixed"] = self.conmix
             # secondary model that does not fantasize (one mean column broadcast against nf columns)
             self.cost1 = _predictor(cfg, hp, K, YCOST, base + 5, False, fantasize=False)
             self.heads["EIpu-e1-cost1col"] = EIpuAcquisitionFunction({A: self.active, K: self.cost1},
